@@ -30,10 +30,24 @@ theorem searchIn_some_mem (l : List Pkg) (q : Str) (c : Pkg) (h : searchIn l q =
   unfold searchIn at h
   exact ⟨List.mem_of_find?_eq_some h, by simpa using List.find?_some h⟩
 
+/-- `searchImport` over the registry with the import being added in it (last) -/
+theorem searchIn_all (s : RS) (n : Str) :
+    searchIn s.all n =
+      match searchIn s.imps n with
+      | some c => some c
+      | none => if s.pend.qualifier = n then some s.pend else none := by
+  unfold searchIn RS.all
+  rw [List.find?_append]
+  cases h : s.imps.find? (fun x => decide (x.qualifier = n)) with
+  | some c => simp
+  | none =>
+    by_cases hq : s.pend.qualifier = n <;> simp [List.find?_cons, hq]
+
 /-- the closed form of one shallow resolution -/
 theorem resolve_shallow (fuel : Nat) (pend : Pkg) (imps : List Pkg) (b : Str) (lvl : Nat)
     (hab : pend.path ≠ b)
     (hd : uniqueName pend.path lvl ≠ uniqueName b lvl)
+    (hna : uniqueName pend.path lvl ≠ [])
     (hfa : ∀ x ∈ imps, x.qualifier = uniqueName pend.path lvl → x.path = b)
     (hfb : ∀ x ∈ imps, x.qualifier = uniqueName b lvl → x.path = b) :
     resolve Ord.id (fuel + 1) ⟨pend, imps⟩ pend.path b lvl =
@@ -44,8 +58,11 @@ theorem resolve_shallow (fuel : Nat) (pend : Pkg) (imps : List Pkg) (b : Str) (l
       = some ⟨{ pend with alias := uniqueName pend.path lvl }, imps⟩ := by
     unfold resolveStep
     simp only [Ord.id]
+    rw [searchIn_all]
     cases hs : searchIn imps (uniqueName pend.path lvl) with
-    | none => simp [RS.setAlias]
+    | none =>
+      simp only []
+      by_cases hq : pend.qualifier = uniqueName pend.path lvl <;> simp [hq, RS.setAlias]
     | some c =>
       have hc := searchIn_some_mem _ _ _ hs
       have : c.path = b := hfa c hc.1 hc.2
@@ -54,9 +71,12 @@ theorem resolve_shallow (fuel : Nat) (pend : Pkg) (imps : List Pkg) (b : Str) (l
   simp only [Option.bind_some]
   unfold resolveStep
   simp only [Ord.id]
+  rw [searchIn_all]
   have hne : ¬ pend.path = b := hab
+  have hpq : ¬ Pkg.qualifier { pend with alias := uniqueName pend.path lvl } = uniqueName b lvl := by
+    simp [Pkg.qualifier, hna, hd]
   cases hs : searchIn imps (uniqueName b lvl) with
-  | none => simp [RS.setAlias, hne]
+  | none => simp [RS.setAlias, hne, hpq]
   | some c =>
     have hc := searchIn_some_mem _ _ _ hs
     have : c.path = b := hfb c hc.1 hc.2
@@ -122,7 +142,7 @@ theorem resolveStep_mono (o : Ord) (d1 d2 : RS → Str → Str → Option RS) (l
     (hd : ∀ s p q y, d1 s p q = some y → d2 s p q = some y)
     (h : resolveStep o d1 lvl skip s p = some x) : resolveStep o d2 lvl skip s p = some x := by
   unfold resolveStep at h ⊢
-  cases hc : searchIn (o.pk s.imps) (uniqueName p lvl) with
+  cases hc : searchIn (o.pk s.all) (uniqueName p lvl) with
   | none => rw [hc] at h; exact h
   | some c =>
     rw [hc] at h
@@ -189,6 +209,7 @@ theorem addImport_shallow (k fuel : Nat) (r : Registry) (p : PkgRef) (c : Pkg)
             aliasOf r.aliases (stripVendorPath p.path)⟩) = some c)
     (heq : ∀ l, l < k → uniqueName (stripVendorPath p.path) l = uniqueName c.path l)
     (hd : uniqueName (stripVendorPath p.path) k ≠ uniqueName c.path k)
+    (hna : uniqueName (stripVendorPath p.path) k ≠ [])
     (hfa : ∀ x ∈ r.imports, x.qualifier = uniqueName (stripVendorPath p.path) k → x.path = c.path)
     (hfb : ∀ x ∈ r.imports, x.qualifier = uniqueName c.path k → x.path = c.path) :
     addImport Ord.id (fuel + 1 + k) r p =
@@ -211,7 +232,7 @@ theorem addImport_shallow (k fuel : Nat) (r : Registry) (p : PkgRef) (c : Pkg)
   rw [hclimb]
   have hsh := resolve_shallow fuel
     ⟨stripVendorPath p.path, p.name, aliasOf r.aliases (stripVendorPath p.path)⟩ r.imports c.path (0 + k)
-    hne (by simpa using hd) (by simpa using hfa) (by simpa using hfb)
+    hne (by simpa using hd) (by simpa using hna) (by simpa using hfa) (by simpa using hfb)
   simp only [] at hsh
   rw [hsh]
   simp
